@@ -721,13 +721,28 @@ func c09Worker(w *W) {
 			mk := func() []*log.Event {
 				var evs []*log.Event
 				for i, sv := range strs {
-					evs = append(evs, &log.Event{Level: log.InfoLevel, Time: time.Unix(1_700_000_000+int64(i), 0).UTC(), File: "s.go", Line: i + 1, Tag: "c09", CtxString: sv,
+					evs = append(evs, &log.Event{Level: log.InfoLevel, Time: time.Unix(1_700_000_000+int64(i), 0).UTC(), File: "s.go", Line: i + 1, Tag: "c09",
 						Fields: []log.Field{log.String(sv, sv), log.Strings("l", []string{sv})}})
 				}
 				return evs
 			}
 			for _, m := range builtinFaithful(w.Spec.Dir, w.Spec.Name, 48, mk) {
 				w.Violate("C09:builtin-sink-alters-bytes", m.String(), map[string]any{"sink": m.Sink, "layout": m.Layout})
+			}
+			// and the text layout as an application builds it by hand (a struct literal, nothing injected): one event, one line,
+			// no raw control byte in it
+			for i, e := range mk() {
+				out := (&log.TextLayout{BaseLayout: log.BaseLayout{FileLineLength: 48}}).ToBytes(e)
+				ctl := 0
+				for _, c := range out {
+					if c < 0x20 {
+						ctl++
+					}
+				}
+				if ctl != 1 || len(out) == 0 || out[len(out)-1] != '\n' {
+					report(strs[i], fmt.Sprintf("a hand-built TextLayout produced a line with %d control bytes (exactly one, the final line feed, is expected): %q", ctl, trunc(string(out), 300)), "layout")
+					break
+				}
 			}
 			w.Count("strings_sent_through_the_builtin_sinks", int64(6*len(strs)))
 			w.Distinct("builtin-sinks")
